@@ -554,7 +554,8 @@ class World(WsWorld):
                         "deadline %.6f (armed %.6f + %s), reaction %r, closed at %r" % (
                             d["deadline"], d["armed"], d["timeout"], r, getattr(e, "onclose_time", None)))
         # ping cadence towards a peer that answers at once
-        if cfg["api"] and self.ping_policy and all(k == "pong-now" for k, _ in self.ping_policy) and len(self.pings_seen) >= 1:
+        # (also when no ping at all was seen: a ping chain that never started is the longest gap there is)
+        if cfg["api"] and self.ping_policy and all(k == "pong-now" for k, _ in self.ping_policy) and self.t_open is not None:
             times = [t for t, _ in self.pings_seen]
             t_end = e.state_times.get(2, e.state_times.get(0, self.now()))
             prev = self.t_open
